@@ -852,7 +852,8 @@ impl<const N: usize> Not for BigInt<N> {
 pub fn signed_mod_reduction(n: u64, modulus: u64) -> i64 {
     let t = (n % modulus) as i64;
     if t as u64 >= (modulus / 2) {
-        t - (modulus as i64)
+        // wrapping: for modulus = 2^63 the cast of the modulus is i64::MIN
+        t.wrapping_sub(modulus as i64)
     } else {
         t
     }
